@@ -17,6 +17,9 @@ from . import annot_model as amod
 from .annot_model import SV
 
 
+_MODULES: Dict[str, Any] = {}  # one real class per definition: both builders must see the same class object
+
+
 class SignatureModel(amod.AnnotModel):
     def __init__(self, prog: Program) -> None:
         super().__init__(prog)
@@ -61,6 +64,7 @@ class SignatureModel(amod.AnnotModel):
         it.globals["sys"] = __import__("sys")
         it.globals["collections"] = __import__("collections")
         it.globals["IMPLICIT_CLASSMETHODS"] = ()
+        it.globals["__concrete_fstrings__"] = True
         old_hook = it.isinstance_hook
 
         def hook(v: Any, cls: str) -> Optional[bool]:
@@ -99,9 +103,41 @@ class SignatureModel(amod.AnnotModel):
         return it, ctx, errors
 
     # ------------------------------------------------------------------ the def route
+    @staticmethod
+    def _method_module(src: str, ns: Dict[str, Any]) -> Any:
+        """CPython defines the classes of `src` in a real (throw-away) module, as importing a checked module does."""
+        import sys
+        import types
+
+        cached = _MODULES.get(src)
+        if cached is not None:
+            sys.modules[cached.__name__] = cached
+            return cached
+        mod = types.ModuleType("verif_signature_model_module")
+        _MODULES[src] = mod
+        mod.__dict__.update(ns)
+        sys.modules[mod.__name__] = mod
+        exec(compile(src, "<signature model>", "exec"), mod.__dict__)
+        return mod
+
+    @staticmethod
+    def _locate(tree: ast.Module) -> Tuple[List[str], ast.AST]:
+        path: List[str] = []
+        node: ast.AST = tree.body[0]
+        while isinstance(node, ast.ClassDef):
+            path.append(node.name)
+            node = node.body[0]
+        return path, node
+
     def via_def(self, src: str, ns: Dict[str, Any]) -> Any:
         it, ctx, errors = self._sig_session(ns)
-        node = ast.parse(src).body[0]
+        path, node = self._locate(ast.parse(src))
+        enclosing = None
+        if path:
+            obj: Any = self._method_module(src, ns)
+            for name in path:
+                obj = getattr(obj, name)
+            enclosing = it.funcs["TypedValue"]([obj])  # what the visitor passes: TypedValue(the class being defined)
 
         def value_of_annotation(n: Any, allow_unpack: bool = False, **k: Any) -> Any:
             fn = self.module_defs["_type_from_ast"]
@@ -113,7 +149,7 @@ class SignatureModel(amod.AnnotModel):
         vctx = Obj("Context", value_of_annotation=value_of_annotation, visit_expression=visit_expression, show_error=lambda *a, **k: errors.append(str(a[1]) if len(a) > 1 else "error"))
         fn = self.module_defs["compute_parameters"]
         try:
-            infos = it.call_def(fn, [node, None, vctx], fn)
+            infos = it.call_def(fn, [node, enclosing, vctx], fn)
         except Unsupported as u:
             raise AnchorError(f"compute_parameters cannot be modelled: {u}")
         except AssertionFailed as af:
@@ -129,9 +165,16 @@ class SignatureModel(amod.AnnotModel):
     # -------------------------------------------------------------- the inspect route
     def via_inspect(self, src: str, ns: Dict[str, Any]) -> Any:
         it, ctx, errors = self._sig_session(ns)
-        env = dict(ns)
-        exec(src, env)  # CPython defines the function; its inspect.Signature is the input
-        f = env["f"]
+        path, _ = self._locate(ast.parse(src))
+        if path:
+            obj: Any = self._method_module(src, ns)
+            for name in path:
+                obj = getattr(obj, name)
+            f = inspect.getattr_static(obj, "f")
+        else:
+            env = dict(ns)
+            exec(src, env)  # CPython defines the function; its inspect.Signature is the input
+            f = env["f"]
         sig = inspect.signature(f)
         cache = Obj("ArgSpecCache", options=Obj("Options"), ctx=Opaque("ctx"), vnv_provider=lambda name: None, _get_generic_bases_cached=lambda c: {})
         fn = self.method_defs[("ArgSpecCache", "from_signature")]
@@ -209,7 +252,19 @@ def headers() -> Iterator[str]:
 SPECIAL_HEADERS = ("a, /, b", "a: int, /, b: str = 'x', *, k: int", "__a, b", "__a: int, __b: str = 'x'", "a, __b", "")
 
 
+METHOD_DEFINITIONS = (
+    "class C:\n    def f(self): pass",
+    "class C:\n    def f(self, a: int, b: str = 'x') -> int: pass",
+    "class C:\n    def f(this, *args: int, **kw: str): pass",
+    "class Outer:\n    class Inner:\n        def f(self, a): pass",
+    "class Outer:\n    class Inner:\n        def f(self, a: int, *, k: str = 'x') -> None: pass",
+    "class A:\n    class B:\n        class C:\n            def f(self): pass",
+    "class C:\n    def f(self: 'C', a): pass",
+)
+
+
 def definitions(stride: int = 1) -> Iterator[str]:
+    yield from METHOD_DEFINITIONS
     rets = ["", " -> int", " -> Optional[str]", " -> None"]
     for i, h in enumerate(headers()):
         if stride > 1 and i % stride and h not in SPECIAL_HEADERS:
